@@ -180,6 +180,10 @@ fn build(tier: Tier) -> Box<dyn Check> {
     for s in ["say 1\nelse\n", "put 1 into\n", "say x\n", "put 5 into x\nput 5 into x\nsay x at 0\n", "let x at \"a\" be 1\nlet x at \"b\" be 2\njoin x\n", "fun takes k\ngive back k\n\nsay fun taking 1\n", "fun takes k\ngive back k plus 1\n\nsay fun taking 1\n", "put 1 into fun\nsay fun taking 1\n", "listen to x\nsay x\n", "say it\n", "put 2 into x\nsay it\n", ""] {
         hset.push(s.to_string());
     }
+    // error messages that render deeply nested arrays (anything that counts depth while printing)
+    for s in ["let x at \"a\" at \"b\" at \"c\" at \"d\" at \"e\" be 1\nsay x at x\n", "let x at \"a\" at \"b\" at \"c\" at \"d\" be 1\nsay x at x\n", "let x at 0 at 0 at 0 at 0 at 0 at 0 at 0 be 1\ncut x\n"] {
+        hset.push(s.to_string());
+    }
     // tiny programs whose words sit at the same offsets and have the same lengths but differ in being keywords
     for s in ["break\n", "zebra\n", "zebra is 5\nsay zebra\n", "listen\n", "little\n", "little is 5\nsay little\n", "it\n", "xy\n", "xy is 5\nsay xy\n", "say\n", "sky\n", "say it\n", "say zebra\n", "say break\n", "put zebra into listen\n", "put break into little\n", "if it\nsay xy\n\n", "at xy\nsay it\n\n"] {
         hset.push(s.to_string());
